@@ -101,30 +101,10 @@ impl <T: ArrayElement> ArrayBroadcast<T> for Array<T> {
 
         let final_shape = self.broadcast_shape(&other.get_shape()?)?;
 
-        let inner_arrays_self = self.extract_inner_arrays();
-        let inner_arrays_other = other.extract_inner_arrays();
-
-        let output_elements = inner_arrays_self.iter().cycle()
-            .zip(inner_arrays_other.iter().cycle())
-            .flat_map( | (inner_self, inner_other) | match (inner_self.len(), inner_other.len()) {
-                (1, _) => inner_self.iter().cycle()
-                    .zip(inner_other.iter())
-                    .take(final_shape[final_shape.len() - 1])
-                    .map(|(a, b) | Tuple2(a.clone(), b.clone()))
-                    .collect::< Vec < _ > > (),
-                (_, 1) => inner_self.iter()
-                    .zip(inner_other.iter().cycle())
-                    .take(final_shape[final_shape.len() - 1])
-                    .map(|(a, b) | Tuple2(a.clone(), b.clone()))
-                    .collect::<Vec < _ > > (),
-                _ => inner_self.iter().cycle()
-                    .zip(inner_other.iter().cycle())
-                    .take(final_shape[final_shape.len() - 1])
-                    .map(|(a, b) | Tuple2(a.clone(), b.clone()))
-                    .collect::< Vec< _ > > (),
-            })
-            .take(final_shape.iter().product())
-            .collect:: < Vec<_ > > ();
+        let output_elements = self.broadcast_to(final_shape.clone())?.into_iter()
+            .zip(other.broadcast_to(final_shape.clone())?)
+            .map(|(a, b)| Tuple2(a, b))
+            .collect::<Vec<_>>();
 
         Array::new(output_elements, final_shape)
     }
@@ -135,14 +115,22 @@ impl <T: ArrayElement> ArrayBroadcast<T> for Array<T> {
         if self.get_shape()?.iter().product::<usize>() == shape.iter().product::<usize>() {
             self.reshape(&shape)
         } else {
-            let output_elements: Vec<T> = self.elements
-                .chunks_exact(self.shape[self.shape.len() - 1])
-                .flat_map(|inner| inner.iter()
-                    .cycle()
-                    .take(shape[shape.len() - 1])
-                    .cloned())
-                .cycle()
-                .take(shape.iter().product())
+            let offset = shape.len().checked_sub(self.shape.len()).ok_or(ArrayError::BroadcastShapeMismatch)?;
+            if self.shape.iter().zip(&shape[offset..]).any(|(&from, &to)| from != to && from != 1) {
+                return Err(ArrayError::BroadcastShapeMismatch)
+            }
+            let target = Self::new(vec![T::zero(); shape.iter().product()], shape.clone())?;
+            let output_elements = (0..target.len()?)
+                .map(|idx| {
+                    let coords = target.index_to_coord(idx)?[offset..].iter()
+                        .zip(&self.shape)
+                        .map(|(&c, &dim)| if dim == 1 { 0 } else { c })
+                        .collect::<Vec<usize>>();
+                    self.at(&coords)
+                })
+                .collect::<Vec<Result<T, ArrayError>>>()
+                .has_error()?.into_iter()
+                .map(Result::unwrap)
                 .collect();
 
             Self::new(output_elements, shape)
@@ -209,6 +197,7 @@ impl <T: ArrayElement> Array<T> {
             .collect::<Vec<Result<usize, ArrayError>>>()
             .has_error()?.iter()
             .map(|a| *a.as_ref().unwrap())
+            .rev()
             .collect();
         Ok(result)
     }
@@ -244,16 +233,6 @@ impl <T: ArrayElement> Array<T> {
 
         if is_compatible { Ok(common_shape.into_iter().rev().collect()) }
         else { Err(ArrayError::BroadcastShapeMismatch) }
-    }
-
-    fn extract_inner_arrays(&self) -> Vec<Vec<T>> {
-        match self.shape.len() {
-            1 => vec![self.elements.clone()],
-            _ => self.elements
-                .chunks_exact(*self.shape.last().unwrap())
-                .map(Vec::from)
-                .collect(),
-        }
     }
 
     pub(crate) fn broadcast_h2<S: ArrayElement>(&self, other: &Array<S>) -> Result<TupleH2<T, S>, ArrayError> {
